@@ -57,7 +57,14 @@ vlib.standard_check({
                   "crossing in the path sense (soundness, completeness, acceptance of well-marked designs, order independence of the verdict). Tied to the code by "
                   "differential execution: per-port domain map, per-port output relation, per-node check result, pin sources and postprocess() verdict of the real code "
                   "on generated designs vs model; verdict vs path specification.",
-    "assumptions": ["influence through memory *contents* (write port clock -> read data) is not a path: Node_MemPort::getOutputClockRelation ignores it by design",
+    "assumptions": ["\"same physical clock source\" is read from what the design REQUESTS: a derived clock keeps its parent's source unless it is given another name, "
+                    "a frequency multiplier != 1 or phaseSynchronousWithParent=false (the generator prints this class per clock as `gps` and the clocks it asked for at every "
+                    "register/pin/marker/memory port as `req`; the driver compares getClockPinSource's partition and the nodes' clock slots against them in every design, "
+                    "PROPFAIL kind=pin-partition / clock-binding, and judges crossings with the requested classes)",
+                    "NOT generated at random (candidate finding, see `c12 quirk`): a clock derived from a non-phase-synchronous clock with only a register attribute changed "
+                    "(also what scl::synchronize derives from its destination clock). hlim::DerivedClock copies the parent's m_phaseSynchronousWithParent "
+                    "(hlim/Clock.cpp:252), so the library makes the child a pin source of its own and rejects the unmarked parent->child path; by the property text they are one domain",
+                    "influence through memory *contents* (write port clock -> read data) is not a path: Node_MemPort::getOutputClockRelation ignores it by design",
                     "Node_External / vendor RAM primitives with their own checkValidInputClocks are not modelled (harness would report them as unsupported)",
                     "the check runs after optimisation: structural crossings that post-processing removes before the check (constant-select mux, AND/OR with a constant, "
                     "marker on a constant, unused logic, the order dependency between two read ports of one memory) are kept out of the generated designs; "
